@@ -66,7 +66,8 @@ def strategy(draw: Any, tier: str) -> Any:
         return _case(draw, draw(grammar.programs(objectives=False)), "grammar", tier)
     if k < 13:
         src, name = chain_template(draw)
-        return _case(draw, src, "template:" + name, tier)
+        src, shuffled = common.shuffle_statements(draw, src, 40)
+        return _case(draw, src, "template:" + name + ("+shuffled" if shuffled else ""), tier)
     item = draw(st.sampled_from(corpus_items(tier)))
     src, _ = mutate.mutant(draw, item["src"])
     return _case(draw, src, "mutant:" + item["file"], tier)
